@@ -146,6 +146,82 @@ theorem j2_closed_form (mu R C20 : Rat) (pos : V3) (rn : Rat) (hrn : rn * rn = p
   have hr2 : rn ^ 2 = x * x + y * y + z * z := by rw [← hrn]; ring
   refine ⟨?_, ?_, ?_⟩ <;> field_simp <;> ring
 
+/-! ### the rest of the degree-2 field and J3, term by term -/
+
+
+/-- textbook gradients (unnormalised coefficients), in terms of the position and its norm -/
+def gradU21 (mu R C S : Rat) (p : V3) (rn : Rat) : V3 :=
+  V3.smul (3 * mu * R ^ 2)
+    ⟨C * p.z / rn ^ 5 - 5 * p.x * p.z * (C * p.x + S * p.y) / rn ^ 7,
+     S * p.z / rn ^ 5 - 5 * p.y * p.z * (C * p.x + S * p.y) / rn ^ 7,
+     (C * p.x + S * p.y) / rn ^ 5 - 5 * p.z ^ 2 * (C * p.x + S * p.y) / rn ^ 7⟩
+
+def gradU22 (mu R C S : Rat) (p : V3) (rn : Rat) : V3 :=
+  V3.smul (3 * mu * R ^ 2)
+    ⟨(2 * C * p.x + 2 * S * p.y) / rn ^ 5 - 5 * p.x * (C * (p.x ^ 2 - p.y ^ 2) + 2 * S * p.x * p.y) / rn ^ 7,
+     (-2 * C * p.y + 2 * S * p.x) / rn ^ 5 - 5 * p.y * (C * (p.x ^ 2 - p.y ^ 2) + 2 * S * p.x * p.y) / rn ^ 7,
+     -5 * p.z * (C * (p.x ^ 2 - p.y ^ 2) + 2 * S * p.x * p.y) / rn ^ 7⟩
+
+def gradU30 (mu R C : Rat) (p : V3) (rn : Rat) : V3 :=
+  V3.smul (mu * R ^ 3 * C / 2)
+    ⟨15 * p.z * p.x / rn ^ 7 - 35 * p.z ^ 3 * p.x / rn ^ 9,
+     15 * p.z * p.y / rn ^ 7 - 35 * p.z ^ 3 * p.y / rn ^ 9,
+     30 * p.z ^ 2 / rn ^ 7 - 35 * p.z ^ 4 / rn ^ 9 - 3 / rn ^ 5⟩
+
+theorem harm_closed_forms2 (xb yb zb rho : Rat) :
+    harmV xb yb zb rho (rho * rho) 3 2 = 15 * zb * rho * (xb ^ 2 - yb ^ 2) ∧
+    harmW xb yb zb rho (rho * rho) 3 2 = 30 * zb * rho * xb * yb ∧
+    harmV xb yb zb rho (rho * rho) 3 3 = 15 * rho * (xb ^ 3 - 3 * xb * yb ^ 2) ∧
+    harmW xb yb zb rho (rho * rho) 3 3 = 15 * rho * (3 * xb ^ 2 * yb - yb ^ 3) ∧
+    harmW xb yb zb rho (rho * rho) 3 0 = 0 := by
+  refine ⟨?_, ?_, ?_, ?_, ?_⟩ <;> simp [harmV, harmW, colVW, diagVW] <;> ring
+
+theorem harm_closed_forms4 (xb yb zb rho : Rat) :
+    harmV xb yb zb rho (rho * rho) 4 0 = (35 * zb ^ 4 * rho - 30 * zb ^ 2 * rho ^ 3 + 3 * rho ^ 5) / 8 ∧
+    harmV xb yb zb rho (rho * rho) 4 1 = xb * rho * (35 * zb ^ 3 - 15 * zb * rho ^ 2) / 2 ∧
+    harmW xb yb zb rho (rho * rho) 4 1 = yb * rho * (35 * zb ^ 3 - 15 * zb * rho ^ 2) / 2 := by
+  refine ⟨?_, ?_, ?_⟩ <;> simp [harmV, harmW, colVW, diagVW] <;> ring
+
+section
+variable (mu R : Rat) (c s : Nat → Nat → Rat) (x y z rn : Rat)
+
+/-- the Cunningham functions at the satellite's position -/
+abbrev Vp := harmV (x * (R / rn) / rn) (y * (R / rn) / rn) (z * (R / rn) / rn) (R / rn) (R / rn * (R / rn))
+abbrev Wp := harmW (x * (R / rn) / rn) (y * (R / rn) / rn) (z * (R / rn) / rn) (R / rn) (R / rn * (R / rn))
+
+/-- **the (2,1) term of the recursion is the gradient of the C21/S21 potential** `3 μ R² z (C x + S y)/r⁵` -/
+theorem term21_closed_form (hr0 : rn ≠ 0) (hR0 : R ≠ 0) (hrn : rn * rn = x * x + y * y + z * z) :
+    V3.smul (mu / (R * R)) (harmTerm (Vp R x y z rn) (Wp R x y z rn) c s 2 1) = gradU21 mu R (c 2 1) (s 2 1) ⟨x, y, z⟩ rn := by
+  obtain ⟨h30, h31, w31⟩ := harm_closed_forms (x * (R / rn) / rn) (y * (R / rn) / rn) (z * (R / rn) / rn) (R / rn)
+  obtain ⟨h32, w32, _, _, w30⟩ := harm_closed_forms2 (x * (R / rn) / rn) (y * (R / rn) / rn) (z * (R / rn) / rn) (R / rn)
+  simp only [harmTerm, gradU21, Vp, Wp, h30, h31, w31, h32, w32, w30, V3.smul, V3.mk.injEq, one_ne_zero, if_false]
+  refine ⟨?_, ?_, ?_⟩
+  · field_simp; linear_combination (-30 * R ^ 4 * c 2 1 * mu * z) * hrn
+  · field_simp; linear_combination (-30 * R ^ 4 * mu * s 2 1 * z) * hrn
+  · field_simp; ring
+
+/-- **the (2,2) term is the gradient of the C22/S22 potential** `3 μ R² (C (x² − y²) + 2 S x y)/r⁵` -/
+theorem term22_closed_form (hr0 : rn ≠ 0) (hR0 : R ≠ 0) (hrn : rn * rn = x * x + y * y + z * z) :
+    V3.smul (mu / (R * R)) (harmTerm (Vp R x y z rn) (Wp R x y z rn) c s 2 2) = gradU22 mu R (c 2 2) (s 2 2) ⟨x, y, z⟩ rn := by
+  obtain ⟨_, h31, w31⟩ := harm_closed_forms (x * (R / rn) / rn) (y * (R / rn) / rn) (z * (R / rn) / rn) (R / rn)
+  obtain ⟨h32, w32, h33, w33, _⟩ := harm_closed_forms2 (x * (R / rn) / rn) (y * (R / rn) / rn) (z * (R / rn) / rn) (R / rn)
+  simp only [harmTerm, gradU22, Vp, Wp, h31, w31, h32, w32, h33, w33, V3.smul, V3.mk.injEq, OfNat.ofNat_ne_zero, if_false]
+  refine ⟨?_, ?_, ?_⟩
+  · field_simp; linear_combination (-30 * c 2 2 * mu * x - 30 * mu * s 2 2 * y) * hrn
+  · field_simp; linear_combination (30 * c 2 2 * mu * y - 30 * mu * s 2 2 * x) * hrn
+  · field_simp; ring
+
+/-- **the J3 term is the gradient of** `μ R³ C₃₀ (5 z³/r⁷ − 3 z/r⁵)/2` -/
+theorem term30_closed_form (hr0 : rn ≠ 0) (hR0 : R ≠ 0) (hrn : rn * rn = x * x + y * y + z * z) :
+    V3.smul (mu / (R * R)) (harmTerm (Vp R x y z rn) (Wp R x y z rn) c s 3 0) = gradU30 mu R (c 3 0) ⟨x, y, z⟩ rn := by
+  obtain ⟨h40, h41, w41⟩ := harm_closed_forms4 (x * (R / rn) / rn) (y * (R / rn) / rn) (z * (R / rn) / rn) (R / rn)
+  have hw40 : harmW (x * (R / rn) / rn) (y * (R / rn) / rn) (z * (R / rn) / rn) (R / rn) (R / rn * (R / rn)) 4 0 = 0 := by
+    simp [harmW, colVW, diagVW]
+  simp only [harmTerm, gradU30, Vp, Wp, h40, h41, w41, hw40, V3.smul, V3.mk.injEq, if_true]
+  refine ⟨?_, ?_, ?_⟩ <;> field_simp <;> ring
+end
+
+
 /-! ### the Earth-fixed sandwich -/
 
 /-- the geopotential is evaluated at `Mᵀ r` and rotated back with `M`: for an orthogonal `M` the position keeps its
